@@ -27,21 +27,20 @@ theorem intCast_num_den (z : Int) : ((z : Rat)).num = z ∧ (((z : Rat)).den : I
   · simp
 
 /-- adding the parameter `c·e_x` reaches every value `u x + k·c` -/
-theorem param_step {this : GridGens} {x : Nat} {c : Int} {u : Nat → Rat} (hu : Gen.sem this u) (a' : Rat) (k : Int)
+theorem param_step (fx : Repairs) {this : GridGens} {x : Nat} {c : Int} {u : Nat → Rat} (hu : Gen.sem this u) (a' : Rat) (k : Int)
     (ha : a' = u x + (k : Rat) * (c : Rat)) :
-    ∃ t, (match addGridGeneratorParam this x c with
-          | .ok t => (Sum.inl t : GridGens ⊕ Outcome)
-          | .error l => .inr (.invalidGenerator l)) = .inl t ∧ Gen.sem t (Function.update u x a') := by
+    ∃ t, addParamOrLeave fx this x c = .inl t ∧ Gen.sem t (Function.update u x a') := by
+  unfold addParamOrLeave
   cases h : addGridGeneratorParam this x c with
   | ok t => exact ⟨t, rfl, by rw [ha]; exact addGridGeneratorParam_ok h hu k⟩
   | error l => exact absurd hu ((addGridGeneratorParam_error h).2 u)
 
 /-- `OVERFLOW_WRAPS` / `OVERFLOW_IMPOSSIBLE`, one variable (Grid_public.cc:3036-3121) -/
-theorem stepWI_sound (cfg : WrapCfg) (_hw : 0 < cfg.w) (ho : cfg.o = .wraps ∨ cfg.o = .impossible)
-    (gr : Gens) (x : Nat) (hnf : flawedAt cfg.w cfg.o gr x = false) (this : GridGens)
+theorem stepWI_sound (fx : Repairs) (cfg : WrapCfg) (_hw : 0 < cfg.w) (ho : cfg.o = .wraps ∨ cfg.o = .impossible)
+    (gr : Gens) (x : Nat) (hnf : fx.kf12 = true ∨ flawedAt cfg.w cfg.o gr x = false) (this : GridGens)
     (u : Nat → Rat) (hu : Gen.sem this u) (hval : ∃ v0, gr.Mem v0 ∧ u x = v0 x) (a' : Rat)
     (himg : Spec.CoordImage cfg (u x) a') :
-    ∃ t, stepWI cfg.w cfg.o (minValue cfg.r cfg.w) (maxValue cfg.r cfg.w) gr x this = .inl t ∧
+    ∃ t, stepWI fx cfg.w cfg.o (minValue cfg.r cfg.w) (maxValue cfg.r cfg.w) gr x this = .inl t ∧
       Gen.sem t (Function.update u x a') := by
   obtain ⟨z, hz, -⟩ := id himg
   rw [hz] at himg
@@ -64,7 +63,7 @@ theorem stepWI_sound (cfg : WrapCfg) (_hw : 0 < cfg.w) (ho : cfg.o = .wraps ∨ 
     simp only []
     rcases ho with ho | ho
     · rw [if_pos ho]
-      exact param_step hu a' _ (hW ho)
+      exact param_step fx hu a' _ (hW ho)
     · rw [if_neg (by rw [ho]; decide)]
       exact ⟨this, rfl, by rw [update_self_val u x a' (hI ho).1]; exact hu⟩
   | some q =>
@@ -108,9 +107,9 @@ theorem stepWI_sound (cfg : WrapCfg) (_hw : 0 < cfg.w) (ho : cfg.o = .wraps ∨ 
         · exact addCongruenceInt_mem hu ⟨z, hz⟩
         · exact hu
       generalize (if (f.den : Int) ≠ 1 then addCongruenceInt this x else this) = this1 at hu1 ⊢
-      by_cases hpar : cfg.o = .wraps ∧ f.num ≠ wrapFrequency cfg.w
+      by_cases hpar : cfg.o = .wraps ∧ (f.num ≠ wrapFrequency cfg.w ∨ (fx.kf12 = true ∧ (v.den : Int) ≠ 1))
       · rw [if_pos hpar]
-        exact param_step hu1 a' _ (hW hpar.1)
+        exact param_step fx hu1 a' _ (hW hpar.1)
       · rw [if_neg hpar]
         by_cases hvd : (v.den : Int) = 1
         · rw [if_pos hvd]
@@ -130,7 +129,7 @@ theorem stepWI_sound (cfg : WrapCfg) (_hw : 0 < cfg.w) (ho : cfg.o = .wraps ∨ 
             have ha : a' = ((leastNotBelow (minValue cfg.r cfg.w) f.num v.num : Int) : Rat) := by
               rcases ho with ho | ho
               · have hfw : f.num = wrapFrequency cfg.w := by
-                  by_contra hne; exact hpar ⟨ho, hne⟩
+                  by_contra hne; exact hpar ⟨ho, Or.inl hne⟩
                 rw [coordImage_wraps ho himg, hfw]
                 rw [hfw] at hzf
                 rw [pin_wraps cfg.r cfg.w v.num z t' hzf]
@@ -144,7 +143,7 @@ theorem stepWI_sound (cfg : WrapCfg) (_hw : 0 < cfg.w) (ho : cfg.o = .wraps ∨ 
             rcases ho with ho | ho
             · exfalso
               apply hc; left
-              by_contra hne; exact hpar ⟨ho, hne⟩
+              by_contra hne; exact hpar ⟨ho, Or.inl hne⟩
             · rw [update_self_val u x a' (hI ho).1]; exact hu1
         · rw [if_neg hvd]
           refine ⟨this1, rfl, ?_⟩
@@ -152,7 +151,11 @@ theorem stepWI_sound (cfg : WrapCfg) (_hw : 0 < cfg.w) (ho : cfg.o = .wraps ∨ 
           · -- the branch of KF-C17-12: excluded by `hnf`
             exfalso
             have hfw : f.num = wrapFrequency cfg.w := by
-              by_contra hne; exact hpar ⟨ho, hne⟩
+              by_contra hne; exact hpar ⟨ho, Or.inl hne⟩
+            have hnf : flawedAt cfg.w cfg.o gr x = false := by
+              rcases hnf with h12 | h
+              · exact absurd ⟨ho, Or.inr ⟨h12, hvd⟩⟩ hpar
+              · exact h
             have htm : Int.tmod (f.den : Int) (v.den : Int) = 0 := by
               by_contra hc; exact ((tmod_ne_zero_iff _ _).mp hc) hdvd
             unfold flawedAt at hnf
@@ -196,7 +199,7 @@ theorem stepU_sound (cfg : WrapCfg) (ho : cfg.o = .undefined)
     rw [if_neg (by rw [not_not]; simp)]
     by_cases hout : (z : Rat) > ((maxValue cfg.r cfg.w : Int) : Rat) ∨ (z : Rat) < ((minValue cfg.r cfg.w : Int) : Rat)
     · rw [if_pos hout]
-      exact param_step hu a' _ hpar
+      exact param_step beforeFix hu a' _ hpar
     · rw [if_neg hout]
       refine ⟨this, rfl, ?_⟩
       have hr : inRange cfg.r cfg.w z := by
@@ -221,6 +224,6 @@ theorem stepU_sound (cfg : WrapCfg) (ho : cfg.o = .undefined)
       rw [hza]
       exact freeInt_mem za hu
     · rw [if_neg hden]
-      exact param_step hu a' _ hpar
+      exact param_step beforeFix hu a' _ hpar
 
 end PPLV.Wrap.GW
